@@ -10,6 +10,19 @@ CLAIMED = {
    note="Trusted: Go runtime prints 'panic:'/'fatal error:' on crashes; 20 s watchdog re-checked serially with 120 s. Coverage is the enumerated family only, not all byte strings."),
 }
 
+CLAIMED.update({
+ "C16": dict(
+   category="exploration", design="DESIGN.md §3 C16",
+   technique="runtime monitoring: N fresh processes per input, byte comparison of stdout / exit status / WARNING lines",
+   text="Tie-rich hand-built inputs for all five device types (k identical groups, equal crypto peers, multi-option rule differences, many same-kind raw objects), every file-mode pair of the repository's test data and generated convergence pairs are each executed by 16 (quick) / 64 (thorough) fresh drc processes; any difference in script, exit status or warnings is a violation.",
+   note="Go randomises map iteration per range statement; N runs sample the orders, they do not enumerate them. ERROR>>> text and info lines are outside the statement and only recorded as anomalies."),
+ "C18": dict(
+   category="exploration", design="DESIGN.md §3 C18",
+   technique="runtime monitoring: order predicates over the observed effective target (script of drc EMPTY_DEVICE B) with uniquely tagged lines",
+   text="A combination table (device type x parts x ACL/chain shape x APPEND mode x raw line pattern, ~800 cases, enumerated completely in thorough) plus non-mergeable raw entries is run through the real drc; completeness (exactly once), per-part order, raw-first and APPEND placement are checked on the emitted script, and non-mergeable entries must give exit 1 or a warning naming them.",
+   note="The effective target is observed indirectly through the add-everything script for an empty device; PAN-OS Netspoc rulebases are generated without explicit deny rules; NSX order is by sequence number, only completeness is checked there."),
+})
+
 PENDING = {
 }
 
